@@ -682,6 +682,8 @@ impl Parser {
         self.state = EngineState::Default;
         buf.reset_terminal();
         caret.reset();
+        // the screen (and its scrollback) is kept: home is the first visible row
+        caret.pos = buf.upper_left_position();
     }
 
     /// Sequence: `CSI Ps1 ; Ps2 * r`</p>
